@@ -7,4 +7,8 @@ mkdir -p $V/.work/bin $V/evidence $V/replays
 cd $V/engine
 cp /repo/go.sum go.sum
 go build -tags verif -o $V/.work/bin/check-all ./cmd/check
+# the free-running supplements of C09 (quick and thorough) and C03 (thorough) are built with the race
+# detector: warm that part of the build cache too
+CGO_ENABLED=1 go build -race -tags verif -o $V/.work/bin/c09race ./cmd/c09race
+CGO_ENABLED=1 go build -race -tags verif -o $V/.work/bin/c03race ./cmd/c03race
 echo setup ok
